@@ -258,7 +258,8 @@ func (st *Stats) add(ex *Exec) {
 
 // Delay enumerates every execution whose total delay (sum of chosen indices) is <= d.
 // visit is called for each execution; returning false stops the exploration.
-func Delay(run func(prefix []int) *Exec, d int, maxExecs int64, st *Stats, visit func(*Exec) bool) {
+// Deviations from the default choice are only taken at points with index < horizon (0 = no limit).
+func Delay(run func(prefix []int) *Exec, d int, horizon int, maxExecs int64, st *Stats, visit func(*Exec) bool) {
 	var rec func(prefix []int, used int) bool
 	rec = func(prefix []int, used int) bool {
 		if maxExecs > 0 && st.Execs >= maxExecs {
@@ -275,7 +276,7 @@ func Delay(run func(prefix []int) *Exec, d int, maxExecs int64, st *Stats, visit
 		}
 		pts := ex.Res.Points
 		cost := used
-		for i := len(prefix); i < len(pts); i++ {
+		for i := len(prefix); i < len(pts) && (horizon <= 0 || i < horizon); i++ {
 			// chosen index at i is 0 beyond the prefix
 			for alt := 1; alt < len(pts[i].Enabled); alt++ {
 				if d >= 0 && cost+alt > d {
